@@ -6,6 +6,7 @@ n = sys.argv[sys.argv.index('-n') + 1] if '-n' in sys.argv else '12'
 base = json.load(open('/root/.vp/BASELINE.json'))
 out = tempfile.mktemp(suffix='.xml', dir='/var/tmp')
 env = {k: v for k, v in os.environ.items() if k != 'METRIC_LEARN_VERIF'}
+env.update(OMP_NUM_THREADS='1', OPENBLAS_NUM_THREADS='1')
 cmd = ['/venv/bin/python', '-m', 'pytest', '-q', '-p', 'no:cacheprovider', '--timeout=900',
        '--continue-on-collection-errors', '-n', n, '--junitxml=' + out]
 r = subprocess.run(cmd, cwd='/repo', env=env, capture_output=True, text=True)
